@@ -120,20 +120,67 @@ class mesh(zmesh):
 
 
 class zimex(object):
-    """right-hand side with implicit and explicit part"""
+    """right-hand side with implicit and explicit part; like imex_mesh it is ONE buffer with two components (so that it can be
+    handed to MPI calls as a whole), `impl` / `expl` are views"""
 
     __array_ufunc__ = None
 
     def __init__(self, init=None, val=0.0):
         if isinstance(init, zimex):
-            self.impl = zmesh(init.impl)
-            self.expl = zmesh(init.expl)
+            self.v = init.v.copy()
         else:
-            self.impl = zmesh(init, val)
-            self.expl = zmesh(init, val)
+            n = len(zmesh(init, val).v)
+            self.v = np.full(2 * n, hom(val), dtype=np.int64)
+
+    def _view(self, lo, hi):
+        z = zmesh.__new__(zmesh)
+        z.v = self.v[lo:hi]
+        return z
+
+    @property
+    def impl(self):
+        return self._view(0, len(self.v) // 2)
+
+    @impl.setter
+    def impl(self, value):
+        self.v[: len(self.v) // 2] = value.v
+
+    @property
+    def expl(self):
+        return self._view(len(self.v) // 2, len(self.v))
+
+    @expl.setter
+    def expl(self, value):
+        self.v[len(self.v) // 2:] = value.v
 
     def verif_bytes(self):
-        return b'zimex' + self.impl.v.tobytes() + self.expl.v.tobytes()
+        return b'zimex' + self.v.tobytes()
+
+    def verif_after_write(self):
+        self.v %= P
+
+    def copy(self):
+        return zimex(self)
+
+    # component-wise arithmetic, as imex_mesh offers it (used by BaseTransfer.prolong_f)
+    def _new(self, arr):
+        r = zimex(self)
+        r.v = arr % P
+        return r
+
+    def __add__(self, o):
+        return self._new(self.v + o.v) if isinstance(o, zimex) else NotImplemented
+
+    def __sub__(self, o):
+        return self._new(self.v - o.v) if isinstance(o, zimex) else NotImplemented
+
+    def __mul__(self, c):
+        return self._new(self.v * hom(c))
+
+    __rmul__ = __mul__
+
+    def __iadd__(self, o):
+        return self.__add__(o)
 
 
 class zcomp2(object):
